@@ -328,3 +328,8 @@ Definition once_as_timing (x : pyonce) : res pytiming :=
   | PO_timedelta T => Ok (PTdelta T) | PO_time t => Ok (PTtime t) | PO_weekday w => Ok (PTweekday w)
   | PO_datetime _ => Err TypeError
   end.
+
+(* ---- the job set of the threading Scheduler as the registry translator sees it: jobs by identity ---- *)
+Definition tagjob_mem (x : pytagjob) (l : list pytagjob) : bool := existsb (fun y => Nat.eqb (ptj_id y) (ptj_id x)) l.
+Definition tagjob_remove (x : pytagjob) (l : list pytagjob) : list pytagjob := filter (fun y => negb (Nat.eqb (ptj_id y) (ptj_id x))) l.
+Definition tagjob_diff (a b : list pytagjob) : list pytagjob := filter (fun y => negb (tagjob_mem y b)) a.
